@@ -765,8 +765,10 @@ class C14(Spec):
                 yield n
 
     def describe(self, c):
-        return (f"capacity {c['cap']} samples, channels {c['nch'] or 1}, fs {c['fs']}: "
-                + '; '.join(' '.join(str(v) for v in o) for o in c['ops']))
+        var = {k: c[k] for k in ('ctor', 'bdtype', 'fsrepr', 'ddtype', 'layout', 'args', 'scribble', 'twin',
+                                 'numrepr', 'samefill') if c.get(k)}
+        return (f"capacity {c['cap']} samples, channels {c['nch'] or 1}, fs {c['fs']}{' ' + str(var) if var else ''}: "
+                + '; '.join(' '.join(str(v) for v in o) for o in c['ops'][:40]))
 
 
 SPEC = C14()
